@@ -1686,6 +1686,15 @@ class HTTP11ClientProtocol(Protocol):
         method directly otherwise random things will break.
         """
         self.transport.loseConnection()
+        if self._state == "TRANSMITTING":
+            # The request Deferred is not connected to the parser's Deferred
+            # yet (that happens once the request is written) and
+            # _disconnectParser is about to forget both: connect them now so
+            # that the request fails instead of never completing.  The request
+            # may still be written to the end, as when a complete response
+            # arrives early.
+            self._state = "TRANSMITTING_AFTER_RECEIVING_RESPONSE"
+            self._responseDeferred.chainDeferred(self._finishedRequest)
         self._disconnectParser(reason)
 
     def dataReceived(self, bytes):
